@@ -1241,6 +1241,7 @@ func (t *State) recoverUnconfirmedTx(undoList []*pb.Transaction) {
 	t.log.Info("recover unconfirm tx done", "costs", xTimer.Print(), "tx_count", len(undoList),
 		"succ_count", succCnt, "confirm_count", confirmCnt, "verify_err_count",
 		verifyErrCnt, "dotx_err_cnt", doTxErrCnt)
+	verifHook("recover_done")
 }
 
 //执行一个block的时候, 处理本地未确认交易
